@@ -546,6 +546,49 @@ def r6_container_reader(ctx):
     r1_tables_agree(ctx)
 
 
+def r7_row_arrays_have_rows(ctx):
+    """Every array read from a per-sample text file is handled row-wise
+    (masked with the valid-row mask, compared with 0 element by element):
+    it must be read with at least one dimension.  np.loadtxt returns a 0-d
+    array for a one-line file, and `response[valid]` then raises
+    IndexError - a training set with a single sample cannot be loaded."""
+    m = ctx.repo.mod("rate.rater")
+    f = m.func("IndentationRater.load_training_set")
+    ctx.analysed(f)
+    n = 0
+    for st in walk_no_nested(f, False):
+        if not isinstance(st, ast.Assign) or len(st.targets) != 1 or \
+                not isinstance(st.targets[0], ast.Name):
+            continue
+        calls = [c for c in ast.walk(st.value) if isinstance(c, ast.Call)
+                 and call_name(c) in ("np.loadtxt", "numpy.loadtxt",
+                                      "np.genfromtxt")]
+        if not calls:
+            continue
+        name = st.targets[0].id
+        # row-wise use of the name (or of what it is concatenated into)
+        rowwise = any(isinstance(x, ast.Subscript) and isinstance(
+            x.value, ast.Name) and x.value.id == name
+            for x in walk_no_nested(f, False))
+        if not rowwise and not isinstance(st.value, ast.Call):
+            rowwise = True          # a list of per-feature columns
+        for c in calls:
+            n += 1
+            nd = kwarg(c, "ndmin")
+            wrapped = any(isinstance(w, ast.Call) and call_name(w) in (
+                "np.atleast_1d", "np.atleast_2d") and any(
+                    x is c for x in ast.walk(w)) for w in ast.walk(st.value))
+            ok = (nd is not None and isinstance(literal(nd), int)
+                  and literal(nd) >= 1) or wrapped or not rowwise
+            ctx.check(ok, c, f"`{name}` read with at least one dimension",
+                      f"load_training_set reads `{name}` with "
+                      f"`{norm(c)[:60]}` and handles it row by row: for a "
+                      "training set with a single sample np.loadtxt "
+                      "returns a 0-d array and the row mask raises "
+                      "IndexError - the set cannot be loaded")
+    ctx.floor("text files read in load_training_set", n, 2)
+
+
 RULES = [
     ("C15-R1", "row filters applied to samples and response alike; NaN-row "
      "mask elementwise", r1_row_alignment),
@@ -558,4 +601,6 @@ RULES = [
     ("C15-R5", "class-balanced weights by shape", r5_weights),
     ("C15-R6", "curves rebuilt from a rating container (the source of an "
      "export) carry every stored column and setting", r6_container_reader),
+    ("C15-R7", "per-sample text files are read with at least one dimension "
+     "(a single-sample training set loads)", r7_row_arrays_have_rows),
 ]
